@@ -17,16 +17,20 @@ TIMERS = ["ON_TIMER", "OFF_TIMER"]
 
 
 class CmdRig:
-    def __init__(self, cid: str, inst, state) -> None:
+    def __init__(self, cid: str, inst, state, rig=None) -> None:
         self.cid = cid
         self.inst, self.state = inst, state
         self.gen = inst["gen"]
-        self.rig = ApiRig(inst, state)
-        r = self.rig.run_init()
-        if r != ("ok", True):
-            raise Violation(f"{cid}:init", f"init() failed: {r!r}", {"inst": inst, "state": state, "calls": []})
-        self.rig.loop.settle()
+        if rig is None:
+            self.rig = ApiRig(inst, state)
+            r = self.rig.run_init()
+            if r != ("ok", True):
+                raise Violation(f"{cid}:init", f"init() failed: {r!r}", {"inst": inst, "state": state, "calls": []})
+            self.rig.loop.settle()
+        else:
+            self.rig = rig
         self.done: list = []
+        self.last_frame = None
 
     def wire_pos(self):
         tr = self.rig.net.current
@@ -50,6 +54,7 @@ class CmdRig:
         pr = refproto.parse_stream(self.gen, new)
         if pr.error or pr.incomplete:
             bad("framing", f"bytes written do not parse as frames: {new.hex()}")
+        self.last_frame = pr.frames[0] if len(pr.frames) == 1 else None
         if exp[0] == "ValueError":
             if res[0] != "raise" or not isinstance(res[1], ValueError):
                 bad("not-refused", f"the console does not advertise/support this request, yet the call returned {res!r}")
